@@ -122,6 +122,21 @@ def genesis_base():
     return cs, cs.head()
 
 
+_EASY = {}
+
+
+def easy_block_one(cs_genesis):
+    """Genesis + a block at height 1 that states the trivial target (trusted, never validated in chain)."""
+    if 'b' not in _EASY:
+        g = cs_genesis.head()
+        outs = [(5_000_000_000 + i, key(i % 12)) for i in range(12)]
+        cb = reward_tx(1, outs, b'easy')
+        blk = seal(cs_genesis, 1, g.hash(), g.timestamp + 60, TRIVIAL_TARGET, [cb])
+        _EASY['b'] = blk
+        _EASY['cs'] = cs_genesis.add_block_no_validation(blk)
+    return _EASY['cs'], _EASY['b']
+
+
 # ---- transactions --------------------------------------------------------------------------------
 
 def make_tx(refs, outputs, signers=None, message_tx=None):
